@@ -1332,6 +1332,12 @@ class C03(Property):
                 obs['died_first'] = first
             else:
                 self.stats['child_died_not_reproduced'] = self.stats.get('child_died_not_reproduced', 0) + 1
+        if obs.get('step_limit'):
+            # a run that hit the step limit leaves its workers parked in the child for good (sched.dispatch): start a
+            # fresh child now and then so that they do not pile up
+            self._frozen_runs = getattr(self, '_frozen_runs', 0) + 1
+            if self._frozen_runs % 100 == 0:
+                self._stop_child()
         if len(self._obs_cache) > 20000:
             self._obs_cache.clear()
         self._obs_cache[key] = obs
